@@ -28,8 +28,16 @@ func sampleDump(indent string, n int, eol string) string {
 			sb.WriteString(eol)
 		}
 		fmt.Fprintf(&sb, "%sgoroutine %d [chan receive, %d minutes]:%s", indent, i, i, eol)
-		fmt.Fprintf(&sb, "%smain.worker(0xc00001%04x, {0x%x, 0x2})%s", indent, i, i, eol)
-		fmt.Fprintf(&sb, "%s\t/home/u/src/app/worker.go:%d +0x1f%s", indent, 10+i, eol)
+		if i%3 == 0 {
+			// every third goroutine runs on another thread: no frames, but a creator
+			fmt.Fprintf(&sb, "%s\tgoroutine running on other thread; stack unavailable%s", indent, eol)
+		} else {
+			fmt.Fprintf(&sb, "%smain.worker(0xc00001%04x, {0x%x, 0x2})%s", indent, i, i, eol)
+			fmt.Fprintf(&sb, "%s\t/home/u/src/app/worker.go:%d +0x1f%s", indent, 10+i, eol)
+			if i%4 == 0 {
+				fmt.Fprintf(&sb, "%s...additional frames elided...%s", indent, eol)
+			}
+		}
 		fmt.Fprintf(&sb, "%screated by main.start in goroutine 1%s", indent, eol)
 		fmt.Fprintf(&sb, "%s\t/home/u/src/app/main.go:%d +0x2a%s", indent, 20+i, eol)
 	}
